@@ -84,6 +84,9 @@ func decodeCode(r *bytes.Reader, codeSectionStart uint64, ret *wasm.Code) (err e
 	}
 
 	bodyOffsetInCodeSection := codeSectionStart - uint64(r.Len())
+	if err = ensureRemaining(r, uint64(remaining)); err != nil {
+		return fmt.Errorf("read body: %w", err)
+	}
 	body := make([]byte, remaining)
 	if _, err = io.ReadFull(r, body); err != nil {
 		return fmt.Errorf("read body: %w", err)
